@@ -4,6 +4,11 @@ CONSTANTS
   MaxReq = 10
   PrintCases = TRUE
   RichRequests = TRUE
+  StartPresent = TRUE
+  WAddOk = 12
+  WAddBad = 5
+  WCommit = 10
+  WMaint = 4
   Deviations = {}
 CONSTRAINT Bound
 INVARIANT PrintCase
